@@ -163,6 +163,21 @@ class Expr2Mixin:
         st.assume(z3.ForAll([k], z3.Implies(z3.And(0 <= k, k < vl.n), z3.And(*eqs)), patterns=[z3.Select(r.arrs[0], k)]))
         return r
 
+    def copy0(self, st, vl: VList) -> VList:
+        """a list whose offset is not literally 0 copied to a fresh array at offset 0, with the correspondence stated in both
+        directions (fresh[k] triggers on the copy, src[T] on the absolute index of the source) - no arithmetic inside patterns"""
+        off = z3.simplify(vl.off)
+        if (z3.is_int_value(off) and off.as_long() == 0) or not vl.arrs:
+            return vl
+        r = self.fresh_list(vl.elem, 'copy', n=vl.n)
+        k, T = z3.Int(fresh_name('ck')), z3.Int(fresh_name('cT'))
+        eqs = [z3.Select(ra, k) == z3.Select(a, off + k) for ra, a in zip(r.arrs, vl.arrs)]
+        st.assume(z3.ForAll([k], z3.Implies(z3.And(0 <= k, k < vl.n), z3.And(*eqs)), patterns=[z3.Select(r.arrs[0], k)]))
+        eqs2 = [z3.Select(ra, T - off) == z3.Select(a, T) for ra, a in zip(r.arrs, vl.arrs)]
+        st.assume(z3.ForAll([T], z3.Implies(z3.And(off <= T, T < off + vl.n), z3.And(*eqs2)), patterns=[z3.Select(vl.arrs[0], T)]))
+        st.assume(*self.wf(r, st))
+        return r
+
     def reversed_list(self, st, l: VList) -> VList:
         r = self.fresh_list(l.elem, 'rev', n=l.n)
         k = z3.Int(fresh_name('rk'))
